@@ -56,6 +56,9 @@ def inputs_for(bpt, tier):
 
 class C02(Check):
     pid = "C02"
+    level_text = (
+        "Bounded exhaustive over PretextView-model scripts with geometries that have non-empty cores and deep cuts; the four clauses of the statement are evaluated on base maps with the statement's own margin (strict inequalities). Every script of the scope must complete."
+    )
     technique = (
         "exhaustive scope enumeration on the real BuildAssembly over PretextView-model edit scripts with geometries that allow "
         "non-empty piece cores and deep cuts; base-map oracle for the four clauses of the statement"
